@@ -46,21 +46,24 @@ Defects == {
   [layer |-> "pushpull", kind |-> "nodecap"],         \* stream: node count above the cap
   [layer |-> "pushpull", kind |-> "negative"],        \* stream: negative counts / lengths
   [layer |-> "pushpull", kind |-> "usercap"],         \* stream: user state length above the cap
+  [layer |-> "pushpull", kind |-> "concurrent"],      \* stream: one push/pull more than the cap on concurrent ones
+  [layer |-> "handoff",  kind |-> "flood"],           \* packet: more queued messages than the handoff queue depth
   [layer |-> "usermsg",  kind |-> "cap"],             \* stream: user message length above the cap
   [layer |-> "usermsg",  kind |-> "short"],           \* stream: fewer bytes than announced, then silence
   [layer |-> "stream",   kind |-> "silent"],          \* connect and send nothing
   [layer |-> "stream",   kind |-> "slow"] }           \* first byte, then nothing
 
 StreamOnly(d) == d.layer \in {"pushpull", "usermsg", "stream"} \/ (d.layer = "enc" /\ d.kind = "oversize")
-PacketOnly(d) == d.layer = "crc" \/ d.layer = "compound"
+PacketOnly(d) == d.layer = "crc" \/ d.layer = "compound" \/ d.layer = "handoff"
 
 \* does the class declare a size beyond a cap
-DeclaresOversize(d) == d.kind \in {"oversize", "nodecap", "usercap", "cap", "bomb"}
+DeclaresOversize(d) == d.kind \in {"oversize", "nodecap", "usercap", "cap", "bomb", "concurrent", "flood"}
 
 \* the model receiver: every class ends in a drop; caps are checked on the declaring header
 Handle(path, cfg, d) ==
   [dropped |-> TRUE,
    membershipTouched |-> FALSE,
+   queued |-> "at-most-depth",              \* handoff: what exceeds the queue depth is dropped, not queued
    readBeyondHeader |-> FALSE,              \* oversize declarations: nothing after the header is consumed
    waitsFor |-> IF d.layer = "stream" \/ d.kind = "short" THEN "timeout" ELSE "nothing",
    reply |-> IF path = "stream" /\ d.layer \notin {"stream", "label"} /\ ~(d.layer = "usermsg")
@@ -74,6 +77,9 @@ HNext == /\ hc.kind = "none"
               /\ (PacketOnly(d) => p = "packet")
               /\ (d.layer = "label" => c = "labeled")
               /\ (d.layer = "enc" => c \in {"sealed-verify", "sealed-lenient"})
+              \* (a sealed stream is read and opened as a whole before its message type is known: the
+              \* concurrency cap cannot be observed on it from outside)
+              /\ (d.kind = "concurrent" => c \in {"plain", "labeled"})
               /\ hc' = [kind |-> "class", path |-> p, cfg |-> c, layer |-> d.layer, defect |-> d.kind,
                         oversize |-> DeclaresOversize(d), out |-> Handle(p, c, d)]
 HSpec == HInit /\ [][HNext]_hc
